@@ -11,12 +11,14 @@ import Driver.C16
 import Driver.C16X
 import Driver.Groups
 import Driver.C11V
+import Driver.Combo
 import IGVerif.Gen.Facts
 open Drv Lean
 
 def genFor (prop tier : String) (seed : Nat) : Except String (Array Case) :=
   match prop with
-  | "C01" => pure (genC01Cases tier seed ++ pairwiseSimpleCases "c01" ++ exhaustiveTreeCases "c01")
+  | "C01" => pure (genC01Cases tier seed ++ pairwiseSimpleCases "c01" ++ exhaustiveTreeCases "c01" ++ genComboCases tier seed)
+  | "COMBO" => pure (genComboCases tier seed)
   | "C02" => pure (genC02Cases tier seed ++ pairwiseNestedCases "c02")
   | "C03" =>
     let base := genC03Cases tier seed
@@ -47,7 +49,8 @@ def genFor (prop tier : String) (seed : Nat) : Except String (Array Case) :=
 
 def judgeFor (prop : String) : Except String (Case → ObsLine → Verdict) :=
   match prop with
-  | "C01" => pure judgeParse
+  | "C01" => pure (fun c o => if c.op = "combo" then judgeCombo c o else judgeParse c o)
+  | "COMBO" => pure judgeCombo
   | "C02" => pure judgeParse
   | "C03" => pure (fun c o => if c.op = "tab" then judgeTabWith ["C05", "C06"] c o else judgeParse c o)
   | "C04" => pure (judgeTabWith ["C04"])
